@@ -193,9 +193,26 @@ def _visit_target(stl):
     return None
 
 
-def skeleton(c, stl):
+def _flatten_nested_ifs(stl):
+    """`if A { if B { S } if C { T } }` -> `if A && B { S } if A && C { T }` when A only reads the sweep position (which the
+    visit bodies S, T do not change)"""
     out = []
     for s in stl:
+        if s[0] == "if" and not s[3] and s[2] and all(x[0] == "if" and not x[3] and isinstance(x[1], tuple) and x[1][0] != "iflet" for x in s[2]) \
+                and isinstance(s[1], tuple) and s[1][0] != "iflet" and s[1] != ("lit", True) \
+                and not any(isinstance(y, tuple) and y[0] == "var" and y[1] in ("visited", "codeword_idx") for y in T.sx_walk(s[1])) \
+                and not any(st[0] in ("assign", "assignop") and st[1 if st[0] == "assign" else 2][0] == "var" and st[1 if st[0] == "assign" else 2][1] in ("i", "j")
+                            for x in s[2] for st in T.stmt_walk(x[2])):
+            for x in _flatten_nested_ifs(s[2]):
+                out.append(("if", ("logic", "And", s[1], x[1]), x[2], [], x[4]))
+        else:
+            out.append(s)
+    return out
+
+
+def skeleton(c, stl):
+    out = []
+    for s in _flatten_nested_ifs(stl):
         if _is_debug_assert(s):
             continue
         if s[0] == "let" and s[2] and s[1].split("#")[0] in ("i", "j"):
@@ -246,8 +263,29 @@ def tab_plc(ctx):
                 return "H" if y[2] == "height" else "W"
             return c.atom(x)
         rows = []
-        if e[0] == "array" and len(e[1]) == 8:
-            for cell in e[1]:
+        cells = list(e[1]) if e[0] == "array" and len(e[1]) == 8 else []
+        if not cells and e[0] == "call" and e[1].endswith("::map") and len(e[2]) == 2 and e[2][1][0] == "closure":
+            # a constant table of offsets mapped through a closure: TABLE.map(|(a, b)| self.idx(i - a, j - b)) - expanded per entry
+            tv = e[2][0]
+            vals = tv[2] if tv[0] == "const" and isinstance(tv[2], (list, tuple)) else f.const(tv[1]) if tv[0] == "const" else None
+            cb = f.thir.get(e[2][1][1])
+            if vals and cb and len(vals) == 8 and len(cb["params"]) == 2:
+                pat = cb["params"][1].get("pat") or {}
+                for row in vals:
+                    env2 = dict(T.let_env(cb["body"]))
+                    fo = T.Folder(f)
+                    try:
+                        okp, binds = fo._pat_match(pat, tuple(row) if isinstance(row, (list, tuple)) else row)
+                    except T.Undecidable:
+                        okp, binds = False, {}
+                    if not okp:
+                        cells = []
+                        break
+                    for nme, v in binds.items():
+                        env2[nme] = {"k": "Lit", "int": v, "ty": "isize", "span": cb["span"]}
+                    cells.append(T.sx(cb["body"], env2))
+        if len(cells) == 8:
+            for cell in cells:
                 if cell[0] == "call" and cell[1] == IT + "::idx" and len(cell[2]) == 3 and is_var(cell[2][0], "self"):
                     rows.append((T.poly(cell[2][1], atom), T.poly(cell[2][2], atom)))
                 else:
@@ -302,7 +340,21 @@ def tab_plc(ctx):
                 names2[s[1].split("#")[0]] = "H" if y[2] == "height" else "W" if y[2] == "width" else None
     c2 = Canon({k: v for k, v in names2.items() if v})
     isk = []
+    def delta(new, var):
+        p = dict(c2.poly(new))
+        p[(var,)] = p.get((var,), 0) - 1
+        return fz({m: k for m, k in p.items() if k})
     for s in ists:
+        # functional spelling: `let (i, j) = if c { (i', j') } else { (i, j) }` / `let i = if c { i' } else { i }`
+        if s[0] == "letpat" and s[2] is not None and s[2][0] == "if" and [n.split("#")[0] for n in s[1]] == ["i", "j"] \
+                and s[2][2][0] == "tuple" and s[2][3] is not None and s[2][3][0] == "tuple" and [x[:2] for x in s[2][3][1]] == [("var", "i"), ("var", "j")]:
+            steps = [("step", v, delta(e, v)) for v, e in zip(("I", "J"), s[2][2][1])]
+            isk.append(("if", c2.cond(s[2][1]), tuple(st for st in steps if st[2] != fz({}))))
+            continue
+        if s[0] == "let" and s[1].split("#")[0] in ("i", "j") and s[3][0] == "if" and s[3][3] is not None and s[3][3][:2] == ("var", s[1].split("#")[0]):
+            v = s[1].split("#")[0].upper()
+            isk.append(("if", c2.cond(s[3][1]), (("step", v, delta(s[3][2], v)),)))
+            continue
         if _is_debug_assert(s) or s[0] == "let":
             continue
         if s[0] == "if":
@@ -320,19 +372,25 @@ def tab_plc(ctx):
             isk.append(("result", fz(c2.poly(s[1]))))
         else:
             isk.append(("?", s[0]))
+    def norm_item(x):
+        return (x[0], x[1], tuple(sorted(x[2], key=repr))) if x and x[0] == "if" else x
     for k, item in enumerate(REF_IDX):
-        g = isk[k] if k < len(isk) else None
+        g = norm_item(isk[k]) if k < len(isk) else None
+        item = norm_item(item)
         what = ["row wrap: i < 0 -> i += h, j += 4 - (h+4)%8", "column wrap: j < 0 -> j += w, i += 4 - (w+4)%8", "DMRE row wrap: i >= h -> i -= h (ISO 21471)", "index = i*w + j"][k]
         obs.append(Ob(r, "idx:%d" % k, g == item, "idx(): " + what, site=T.span_str(f.thir[fn]["span"]), detail=None if g == item else str(g)[:300]))
     obs.append(Ob(r, "idx:len", len(isk) == len(REF_IDX), "idx() has no further adjustments"))
     # --- padding pattern
     fn = "placement::MatrixMap::<M>::write_padding"
     need(fn in f.thir, r, fn)
-    psts = T.stmts(f.thir[fn]["body"], {"__noinline__": True})
-    ok = len(psts) == 1 and psts[0][0] == "if" and psts[0][1][0] == "field" and psts[0][1][2] == "has_padding"
+    psts = T.stmts(f.thir[fn]["body"], {})
+    gb = [(c, blk) for c, blk in T.guarded_blocks(psts) if c[0] == "field" and c[2] == "has_padding"]
+    # every store of the function lies in the block that runs exactly when has_padding is set
+    all_stores = [st for st in T.stmt_walk(psts) if st[0] in ("assign", "assignop")]
+    ok = len(gb) == 1 and all(any(st is x for x in T.stmt_walk(gb[0][1])) for st in all_stores)
     cells = []
     if ok:
-        for st in psts[0][2]:
+        for st in gb[0][1]:
             if st[0] == "assign" and st[2][0] == "const" and st[2][1].endswith("Bit::HIGH"):
                 bm = [x for x in T.sx_walk(st[1]) if x[0] == "call" and x[1].endswith("MatrixMap::bit_mut")]
                 if bm:
@@ -392,6 +450,13 @@ def _bit_order(ctx, r):
             lsb = len(a) == 1 and a[0][2][0] == "bin" and a[0][2][1] == "Eq" and a[0][2][2][0] == "bin" and a[0][2][2][1] == "BitAnd" and a[0][2][2][3] == ("lit", 1) and a[0][2][3] == ("lit", 1)
             first = [s for s in sts if s[0] == "let" and s[3][0] == "index" and is_var(s[3][1], "data") and is_var(s[3][2], "idx")]
             okw = rev and lsb and len(sh) == 1 and len(first) == 1 and body.index(a[0]) < body.index(sh[0])
+            if not okw and not rev and len(a) == 1 and not sh and len(first) == 1 and len(loops[0][1]) == 2 and T.sx_calls(loops[0][2], "Iterator::enumerate"):
+                # for (k, bit) in bits.into_iter().enumerate() { *bit = (codeword >> (7 - k)) & 1 == 1 }
+                kv, bv = [n.split("#")[0] for n in loops[0][1]]
+                e = a[0][2]
+                okw = is_var(a[0][1], bv) and e[0] == "bin" and e[1] == "Eq" and e[3] == ("lit", 1) and e[2][0] == "bin" and e[2][1] == "BitAnd" and e[2][3] == ("lit", 1) \
+                    and e[2][2][0] == "bin" and e[2][2][1] == "Shr" and is_var(e[2][2][2], first[0][1].split("#")[0]) \
+                    and e[2][2][3] == ("bin", "Sub", ("lit", 7), e[2][2][3][3]) and is_var(e[2][2][3][3], kv)
     if rfn:
         sts = T.stmts(f.thir[rfn[0]]["body"], {"__noinline__": True})
         loops = [s for s in sts if s[0] == "for"]
@@ -401,6 +466,18 @@ def _bit_order(ctx, r):
             a = [s for s in body if s[0] == "assign"]
             shape = len(a) == 1 and a[0][2][0] == "bin" and a[0][2][1] == "BitOr" and a[0][2][2][0] == "bin" and a[0][2][2][1] == "Shl" and a[0][2][2][3] == ("lit", 1) and a[0][2][3][0] == "cast"
             okr = (not rev) and shape
+        elif not loops:
+            # data[idx] = bits.iter().fold(data[idx], |codeword, bit| (codeword << 1) | (*bit as u8))
+            a = [s0 for s0 in sts if s0[0] == "assign"]
+            folds = [x for s0 in a for x in T.sx_calls(s0[2], "::fold")]
+            if len(a) == 1 and len(folds) == 1 and folds[0][2][2][0] == "closure" and not T.sx_calls(folds[0][2][0], "Iterator::rev"):
+                tgt = a[0][1]
+                slot_ok = (tgt[0] == "index" or (tgt[0] == "call" and tgt[1].endswith("index_mut"))) and any(is_var(x, "data") for x in T.sx_walk(tgt)) and any(is_var(x, "idx") for x in T.sx_walk(tgt))
+                cb = T.closure_body_sx(f, folds[0][2][2][1])
+                if slot_ok and cb and len(cb[0]) == 2:
+                    acc, bit = [n.split("#")[0] for n in cb[0]]
+                    e = cb[1]
+                    okr = e[0] == "bin" and e[1] == "BitOr" and e[2] == ("bin", "Shl", e[2][2], ("lit", 1)) and is_var(e[2][2], acc) and e[3][0] == "cast" and is_var(e[3][1], bit)
     obs.append(Ob(r, "bits:write", okw, "copy_from_codewords stores codeword idx most significant bit first (bit 1 of Annex F = first of the eight modules)"))
     obs.append(Ob(r, "bits:read", okr, "codewords() reads the eight modules most significant bit first (the inverse order of the writer)"))
     return obs
